@@ -12,6 +12,7 @@ import (
 	"errors"
 	"fmt"
 	"io"
+	"math"
 	"os"
 	"path/filepath"
 	"sort"
@@ -52,8 +53,9 @@ func NewBuilderSized(
 	if valueSizeBytes == 0 {
 		return nil, fmt.Errorf("valueSizeBytes must be > 0")
 	}
-	if valueSizeBytes > 255 {
-		return nil, fmt.Errorf("valueSizeBytes must be <= 255")
+	if valueSizeBytes > math.MaxUint8-HashSize {
+		// The entry stride (hash + value) is stored in a uint8.
+		return nil, fmt.Errorf("valueSizeBytes must be <= %d", math.MaxUint8-HashSize)
 	}
 	if numItems == 0 {
 		return nil, fmt.Errorf("numItems must be > 0")
